@@ -170,6 +170,9 @@ fn case(r: &mut Rng, res: &mut CaseResult) {
     let io_thread = h.peek(|st| st.io_thread);
     let expected_term: CMsg;
     let mut socket_ends = false;
+    // the socket ended for reading only (the broker shut down its sending side) and the
+    // transport was taking data: what is queued, CloseOk last, can and must still go out
+    let mut half_closed_and_writable = false;
     let want_first_err: String;
     let mut own_issued: Vec<Op> = Vec::new();
 
@@ -339,6 +342,7 @@ fn case(r: &mut Rng, res: &mut CaseResult) {
         socket_ends = r.chance(1, 4);
         if socket_ends {
             let end = if r.bool() { InEnd::Eof } else { InEnd::Err(std::io::ErrorKind::ConnectionReset) };
+            half_closed_and_writable = end == InEnd::Eof && !stalled;
             if r.bool() {
                 h.inject_then_end(conn_close_frame(code, &text), Some(end));
             } else {
@@ -447,7 +451,7 @@ fn case(r: &mut Rng, res: &mut CaseResult) {
     let bytes = h.out_bytes();
     let sp = wire::parse_client_stream(&bytes);
     // (a socket that ended under a stalled write leaves the frame it interrupted unfinished)
-    if sp.error.is_some() || (sp.trailing != 0 && !socket_ends) {
+    if sp.error.is_some() || (sp.trailing != 0 && (!socket_ends || half_closed_and_writable)) {
         res.violate("malformed_outbound_frame", format!("{:?} trailing {}", sp.error, sp.trailing));
     }
     let last = sp.frames.last();
@@ -460,7 +464,7 @@ fn case(r: &mut Rng, res: &mut CaseResult) {
         if closes.len() != 1 {
             res.violate("last_frame", format!("{} Connection.Close frames written", closes.len()));
         }
-    } else if socket_ends {
+    } else if socket_ends && !half_closed_and_writable {
         // (nothing can be said about what still got through before the socket ended)
     } else {
         match last.and_then(|f| f.method()) {
